@@ -29,7 +29,7 @@ def waiting_future_writers(chk: Check, rule: str = 'FUT-multi-writer'):
     LOC = _loc(prog)
     sites = []
     for c in waiting_classes(prog):
-        for f in c.vmethods.values():
+        for f in c.emethods.values():
             for s in writer_sites(chk.ctx, f, [LOC]):
                 sites.append(classify(chk.ctx, s))
     return sites
@@ -55,7 +55,7 @@ def rearm_after_interruption(chk: Check, rule: str) -> None:
            'interruption is re-raised (the state can be executed again)', kind='rearm-after-interruption')
     nullable = []
     for c in waiting_classes(prog):
-        for f in c.vmethods.values():
+        for f in c.emethods.values():
             for n in ast.walk(f.node):
                 if isinstance(n, (ast.Assign, ast.AnnAssign)) and n.value is not None and norm(n.value) == 'None' and any(norm(t) == LOC for t in (n.targets if isinstance(n, ast.Assign) else [n.target])):
                     nullable.append((f, n))
@@ -64,7 +64,7 @@ def rearm_after_interruption(chk: Check, rule: str) -> None:
         return
     n_deref = 0
     for c in waiting_classes(prog):
-        for f in c.vmethods.values():
+        for f in c.emethods.values():
             ff = chk.ctx.facts.analyse(f)
             for x in ast.walk(f.node):
                 deref = None
